@@ -11,6 +11,8 @@ BIN = VERIF + "/target/e2e/debug/trampoline"
 
 def build():
     env = dict(os.environ, CARGO_NET_OFFLINE="true")
+    for k in ("CARGO_TARGET_DIR", "CARGO_BUILD_TARGET_DIR", "RUSTFLAGS", "CARGO_ENCODED_RUSTFLAGS"):
+        env.pop(k, None)
     p = subprocess.run(["cargo", "build", "--offline", "--manifest-path", "/repo/Cargo.toml", "--target-dir", VERIF + "/target/e2e"],
                        env=env, capture_output=True, text=True)
     if p.returncode != 0:
